@@ -193,7 +193,9 @@ func vfUnauthVerdict(rec *httptest.ResponseRecorder) (v string) {
 	return fmt.Sprintf("HANDLED(%d %q)", rec.Code, strings.TrimSpace(rec.Body.String()))
 }
 
-var vfMethods = []string{"GET", "POST", "PUT", "DELETE", "HEAD", "OPTIONS", "PATCH", "BOGUS"}
+// vfMethods are request methods; a method is a case-sensitive token, so "post"
+// is not POST.
+var vfMethods = []string{"GET", "POST", "PUT", "DELETE", "HEAD", "OPTIONS", "PATCH", "BOGUS", "post", "Post", "put", "get"}
 
 type vfShape struct {
 	Method string
